@@ -696,6 +696,11 @@ def cases_of(fn, tier):
             out.append((tuple(tup), False))
         out.append(((), False))
         out.append((tuple(p[0] for p in per), True))
+    elif fam == "n":
+        out.append(((), False))
+        out.append(((("py", 1),), False))
+        out.append(((("py", None),), False))
+        out.append(((("py", 1), ("py", 2)), False))
     elif fam == "u":
         al = alphabet(A[0])
         for _lab, s in al:
@@ -822,6 +827,8 @@ def functions(tier):
     def add(fam, R, A):
         fns.append((fam, "f%d" % next(n), R, tuple(A)))
     rset = CORE + ["void"]
+    for R in rset:
+        add("n", R, [])            # nullary: METH_NOARGS wrapper in API mode, a cif without arguments elsewhere
     for A in CORE:
         for R in rset:
             add("u", R, [A])
@@ -857,6 +864,8 @@ def blocks_of(fns, tier):
         fam = f[0]
         if fam == "u":
             c = 130
+        elif fam == "n":
+            c = 4
         elif fam == "f":
             c = 1000
         elif fam == "b":
@@ -1027,7 +1036,9 @@ def run(ctx):
             n_structs += ns
             n_scalls += nc
             for kind, pname, decl, info in bad:
-                ctx.violation({"kind": kind, "site": "struct-shapes", "path": pname},
+                exc = info.split(":")[0] if kind.endswith("-raises") else None
+                ctx.violation({"kind": kind, "site": "struct-shapes", "path": pname, "union_member": "union un13" in decl,
+                               "exc": exc},
                               {"struct_shapes": True, "decl": decl, "path": pname, "info": info})
         tot["cases"] += n_scalls
         cov = {
@@ -1068,7 +1079,7 @@ def replay(detail):
         want = [d.strip() for d in detail["decl"].split(";") if d.strip()]
         kinds = []
         for j, dtext in enumerate(want):
-            for k in SS.KINDS:
+            for k in SS.KINDS + [SS.UNION_KIND]:
                 if k[1].format(n="f%d" % j).rstrip(";") == dtext:
                     kinds.append(k)
         n, nc, bad = SS.work((0, [tuple(kinds)]))
